@@ -30,6 +30,13 @@ structure FileEnt where
   pad : Bool
 deriving Repr, DecidableEq
 
+/-- `Padding: strings.Contains(f.Attr, "p")` (Torrent.MetadataComplete): whether a file is a padding
+    file is a function of its BEP 47 attribute string alone — not of its path -/
+def padOfAttr (attr : String) : Bool := attr.toList.contains 'p'
+
+/-- the file-table entry MetadataComplete builds for a file of the metainfo -/
+def mkFileEnt (offset length : Int) (attr : String) : FileEnt := ⟨offset, length, padOfAttr attr⟩
+
 structure FileChunk where
   idx : Nat          -- position of the file in the table (stands for its path)
   filelength : Int
